@@ -134,7 +134,7 @@ def run(tier):
         trans += r.generated
         mc.append({"config": name, "distinct": r.distinct, "generated": r.generated})
     # programs for the real runs: TLC-built (Ssa.tla, sim mode)
-    n = 600 if tier == "quick" else 8000
+    n = 1200 if tier == "quick" else 8000
     g1 = common.run_tlc_many("Ssa", c05.ssa_cfg("c06_sim_a", 2, 3, 2, 6), 6, n, 90, seed + 3, allow_violation=True)
     g2 = common.run_tlc_many("Ssa", c05.ssa_cfg("c06_sim_b", 3, 3, 3, 5), 6, n // 2, 90, seed + 4, allow_violation=True)
     g3 = common.run_tlc_many("Ssa", c05.ssa_cfg("c06_sim_c", 3, 6, 2, 5), 6, n // 2, 90, seed + 5, allow_violation=True)
